@@ -69,9 +69,21 @@ PLANS["C11"] = dict(stages=[dict(bin="world", world="policy", prop="C11", share=
     rule="each evaluation is one seeded run of the policy world: one real nsqd with a drawn TLS mode (not required / tcp-https / required), optional server certificate, client-certificate policy (none / require / require-verify) and 0-2 stub auth servers (GET or POST) serving a grant table that generated operations change; three raw TCP connections (no IDENTIFY, plain IDENTIFY, TLS upgrade with no / CA-signed / self-signed client certificate, plaintext command pipelined behind the TLS-negotiating IDENTIFY) issue AUTH/PUB/MPUB/DPUB/SUB/NOP/RDY/CLS, plaintext HTTP and HTTPS requests, clock advances across TTLs, auth-server failure modes (500, 403, garbage, reset, stall, ttl 0, unknown permission, bad regex); a reference gate predicts OK or the documented fatal error, the auth stub checks that every query describes the connection truthfully, and after every operation nsqd's registry (topics, channels, message counts) must equal the reference registry; distinct = distinct schedule fingerprint",
     components=dict(real=REAL_Q + ["internal/auth (QueryAnyAuthd over simnet)", "crypto/tls server and client handshakes with the repository's test certificates"], stub=STUB_Q + ["stub auth servers (HTTP handlers in the harness)"]), assumptions=ASSUME, crash_property="C11")
 
+# Race stage: the same world built with the Go race detector (happens-before
+# based, so it sees unsynchronised accesses on one P); only races with both
+# accesses in nsq code count. Used where the property has a "does not crash /
+# stays correct under concurrency" clause.
+RACE_NOTE = "; a share of the budget runs the same world built with -race: a data race between two accesses in nsq code is a violation (class data-race)"
+for _p, _share in (("C08", 0.3), ("C09", 0.25), ("C15", 0.3), ("C16", 0.25), ("C18", 0.3)):
+    _st = PLANS[_p]["stages"]
+    _st[0]["share"] = 1.0 - _share
+    _st.append(dict(bin="world_race", world=_st[0]["world"], prop=_st[0].get("prop", _p), share=_share))
+    PLANS[_p]["rule"] += RACE_NOTE
+    PLANS[_p]["assumptions"] = PLANS[_p]["assumptions"] + ["race stage: Go race detector semantics (happens-before over sync operations; simnet's mutex/cond stands in for the kernel's socket synchronisation)"]
+
 WORLD_BIN = {"policy": "world", "queue": "world", "lookupd": "world", "proto": "world", "meta": "world", "cluster": "world", "admin": "world"}
 SELFTEST_WORLDS = [("queue", "ALL"), ("queue", "C08"), ("queue", "C05"), ("lookupd", "C14"), ("lookupd", "C15")]
-ALL_TARGETS = ["world"]
+ALL_TARGETS = ["world", "world_race"]
 
 SIMNOTE = ("assumes the trusted base of DESIGN.md 6: Go 1.26.8 synctest + five runtime patches, the two-rule AST rewriter, simnet/simos fidelity, "
            "one-P atomicity between synchronisation operations; oracles see the wire only (frames, HTTP, /stats, data directory)")
